@@ -25,6 +25,32 @@ type BulkElement struct {
 	Action         string `json:"action"`
 	IdempotencyKey string `json:"ik"`
 	Data           any    `json:"data"`
+
+	// err is set by the stream handlers on the element they could not read: the stream is malformed from
+	// there on, and the bulker has to see that as a failed element (an atomic bulk must not be committed).
+	err error
+}
+
+// ErrInvalidElement is the failure of an element a stream handler could not read.
+type ErrInvalidElement struct {
+	err error
+}
+
+func (e ErrInvalidElement) Error() string {
+	return e.err.Error()
+}
+
+func (e ErrInvalidElement) Unwrap() error {
+	return e.err
+}
+
+func (e ErrInvalidElement) Is(err error) bool {
+	_, ok := err.(ErrInvalidElement)
+	return ok
+}
+
+func newInvalidElement(err error) BulkElement {
+	return BulkElement{err: ErrInvalidElement{err: err}}
 }
 
 func (b BulkElement) GetAction() string {
